@@ -95,6 +95,21 @@ func genC12(rng *rand.Rand, c *Case) {
 			c.Ops = append(c.Ops, Op{C: ci, K: "subject", N: []int{rng.Intn(slots), rng.Intn(40)}})
 		case k < 18 && slots > 0:
 			c.Ops = append(c.Ops, Op{C: ci, K: "psay", N: []int{rng.Intn(slots), msgLen(), rng.Intn(4) / 3}})
+		case k < 19 && slots > 0 && n >= 2 && rng.Intn(2) == 0:
+			// two clients act on the same chat at the same instant: one changes the subject (or speaks, or leaves),
+			// the other joins (or leaves)
+			cj := (ci + 1 + rng.Intn(n-1)) % n
+			slot := rng.Intn(slots)
+			c.Ops = append(c.Ops, Op{C: ci, K: "meet", N: []int{j, 2}}, Op{C: cj, K: "meet", N: []int{j, 2}})
+			switch rng.Intn(3) {
+			case 0:
+				c.Ops = append(c.Ops, Op{C: ci, K: "subject", N: []int{slot, rng.Intn(40)}})
+			case 1:
+				c.Ops = append(c.Ops, Op{C: ci, K: "psay", N: []int{slot, rng.Intn(60), 0}})
+			case 2:
+				c.Ops = append(c.Ops, Op{C: ci, K: "leave", N: []int{slot}})
+			}
+			c.Ops = append(c.Ops, Op{C: cj, K: []string{"join", "join", "leave"}[rng.Intn(3)], N: []int{slot}})
 		case k < 19:
 			c.Ops = append(c.Ops, Op{C: ci, K: "delay", N: []int{rng.Intn(40)}})
 		default:
@@ -176,6 +191,8 @@ func runC12(w *World) {
 				switch op.K {
 				case "delay":
 					Delay(op.N[0])
+				case "meet":
+					w.Meet(op.N[0], op.N[1])
 				case "quit":
 					quit[idx] = true
 					c.Disconnect()
